@@ -9,7 +9,11 @@ from harness.framework import Suite
 PID = "C14"
 TRANSLATE = True
 LEAN_MODS = ["SwcVerif.Props.C14"]
-THEOREMS = []
+THEOREMS = [
+    "C14.tree_volume_eq_sum", "C14.level1_every_tree", "C14.level2_every_tree", "C14.level3_every_tree", "C14.level5_every_tree",
+    "C14.node_level1", "C14.node_level2", "C14.node_level3", "C14.node_level5",
+    "C14.chain_union", "C14.chain_hyps_of_pairwise", "C14.sum_chainRose", "C14.chain_volume_is_union", "C14.lens_inside_frustum",
+]
 TRUSTED = ["translator (Gen/VolumeTerms.lean: the per-node inclusion–exclusion terms and their accuracy levels, regenerated from analysis/volume.py)",
            "disc method for the true union volume of collinear trees (profile = max of the parts' profiles)"]
 ASSUMPTIONS = [
@@ -147,7 +151,7 @@ class TreeVol(Suite):
         for a in case["levels"]:
             if a >= 5 and case["class"] == "arms":
                 continue  # Monte-Carlo pair term not reproduced by the model line
-            out.append((f"voltree acc={a} nodes={nodes}", {"approx": [res["vol"][str(a)]], "rtol": 2e-5, "atol": 1e-5}))
+            out.append((f"voltree acc={a} ids={gen.ints(range(case['tree']['n']))} pids={gen.ints(case['tree']['pids'])} nodes={nodes}", {"approx": [res["vol"][str(a)]], "rtol": 2e-5, "atol": 1e-5}))
         return out
 
     def oracle(self, case, res):
@@ -187,7 +191,4 @@ LEVEL_TEXT = ("Kernel-checked: for every tree, level 1 = Σ spheres and level 2 
               "Σ spheres + Σ (frustum − parent-sphere∩frustum − child-sphere∩frustum), which under the property's spacing hypotheses is the measure of "
               "the union (set-algebra theorem). A changed sign, level threshold or an added term changes the generated Lean and breaks a theorem.")
 LEVEL_NOTE = ("Trusted: Lean kernel + Mathlib; translator; C13's closed forms for each term; disc method; Monte-Carlo terms (level ≥5 pair term, level 10) outside.")
-try:
-    from harness.props._c14_theorems import THEOREMS  # noqa: F401
-except Exception:  # noqa: BLE001
-    pass
+
